@@ -1,4 +1,5 @@
 import Corro.Model.Needs
+import Corro.Gen.SyncConsts
 import Driver.Util
 /-!
 Driver for C04.  Two ops:
@@ -18,14 +19,16 @@ Answer: `a:F<lo>-<hi>,P<v>=<lo>-<hi>+<lo>-<hi>,…;a:…` (actors ascending, nee
 `compute_available_needs` pushes them, partial needs by ascending version), `-` for no needs,
 `err backward-range` if any range has `lo > hi` (the real code would panic inside rangemap).
 
-Answer of `session`: what `syncSession 10 10 us <ok peers>` puts on the wire, in one of three forms (the rule
+Answer of `session`: what `syncSession k d us <ok peers>` puts on the wire, `k` = `Corro.Gen.SyncConsts.syncChunkSize`,
+`d` = `Corro.Gen.SyncConsts.syncDrainPerRound` (regenerated from peer/mod.rs by tools/extract_c04.py at the start of
+every check; both 10 as the code stands), in one of three forms (the rule
 is evaluated on the model's computed needs; the harness evaluates the same rule on the real ones).  The only
 thing of a real session that the op line does not determine is the order of the ACTORS inside one server's
 queue (iteration order of a `HashMap` built inside `compute_available_needs`; the model walks the actors in
 ascending order):
 * `seq <srv>><actor>:<need>,…` — no server has needs for two or more actors: everything is determined; the
   whole session in sending order;
-* `act <srv>[<a>:<need>,…;<a>:…]|…` — every server with needs for 2+ actors has at most 10 queued items, so
+* `act <srv>[<a>:<need>,…;<a>:…]|…` — every server with needs for 2+ actors has at most `d` queued items, so
   it is drained completely in its first turn and, de-duplication being per actor, what it is sent per actor
   does not depend on the actor order: per server (members order, servers that are sent nothing omitted), per
   actor ascending, in sending order;
@@ -112,14 +115,19 @@ def distinct (xs : List Nat) : Bool := (sortDedup xs).length == xs.length
 inductive Form where
   | seq | act | set
 
+/-- chunk size of `chunk_range(versions, _)` in `parallel_sync`, as extracted from the source -/
+def chunkK : Nat := Corro.Gen.SyncConsts.syncChunkSize
+/-- `while drained < _` in `parallel_sync`, as extracted from the source -/
+def drainD : Nat := Corro.Gen.SyncConsts.syncDrainPerRound
+
 /-- (number of actors, queue length) of the server made from one peer -/
 def queueShape (us p : SyncState) : Nat × Nat :=
   let needs := computeAvailableNeeds us p
-  (needs.length, (queueOf 10 needs).length)
+  (needs.length, (queueOf chunkK needs).length)
 
 def formOf (shapes : List (Nat × Nat)) : Form :=
   if shapes.all (fun s => s.1 ≤ 1) then .seq
-  else if shapes.all (fun s => s.1 ≤ 1 || s.2 ≤ 10) then .act
+  else if shapes.all (fun s => s.1 ≤ 1 || s.2 ≤ drainD) then .act
   else .set
 
 def showSeq (sent : List (Actor × Actor × Need)) : String :=
@@ -157,7 +165,7 @@ def runSession (ua uh un up : String) (rest : List String) : Option String := do
   if !(rangesOk us && peers.all (fun p => rangesOk p.2)) then pure "err backward-range" else
   let live := (peers.filter (·.1)).map (·.2)
   if live.isEmpty then pure "err handshake" else
-  let sent := syncSession 10 10 us live
+  let sent := syncSession chunkK drainD us live
   match formOf (live.map (queueShape us)) with
   | .seq => pure (showSeq sent)
   | .act => pure (showAct live sent)
